@@ -49,3 +49,15 @@ Theorem C10_flag_fields_not_decodable :
   forallb flag_field_is_skipped ["Response"; "Assertion"; "LogoutResponse"; "LogoutRequest"]%string = true.
 Proof. exact flag_fields_not_decodable. Qed.
 Print Assumptions C10_flag_fields_not_decodable.
+
+(* ---- tie to the source text (GenFuncs.v is re-translated from /repo's validate.go / decode_*.go on every run) ---- *)
+From V Require Import Profile GenPrelude GenFuncs P_GenFuncs.
+Theorem C10_source_ValidateDecodedLogoutResponse_is_the_model : forall cfg now r,
+  G_ValidateDecodedLogoutResponse cfg now r = PVal (validate_logout_response cfg r).
+Proof. exact G_ValidateDecodedLogoutResponse_eq. Qed.
+Print Assumptions C10_source_ValidateDecodedLogoutResponse_is_the_model.
+
+Theorem C10_source_ValidateDecodedLogoutRequest_is_the_model : forall cfg now r,
+  G_ValidateDecodedLogoutRequest cfg now r = PVal (validate_logout_request cfg r).
+Proof. exact G_ValidateDecodedLogoutRequest_eq. Qed.
+Print Assumptions C10_source_ValidateDecodedLogoutRequest_is_the_model.
